@@ -427,8 +427,8 @@ func (s *Session) onRecord(resp *Response, req *Request) {
 }
 
 func (s *Session) onPlay(resp *Response, req *Request) (err error) {
-	if s.status == statusPlaying {
-		return
+	if s.status == statusPlaying { // 已在播放(如客户端用 PLAY 保活)，无需处理，但每个请求都必须回复
+		return s.response(resp)
 	}
 
 	// 传输模式、会话模式判断
